@@ -424,10 +424,25 @@ def ob_wire(chk, ir):
                 if not p.evs('agent.add') and not [e for e in p.evs('file.write') if tainted(ex2, p, e['data'])]:
                     if chk.violation('private-at-rest', f'insertSSHCert/{kind}/lost', 'installation reports success but the key reached neither the agent nor a file', None) == 'new': verdict = 'violated'
         chk.absorb(ex2, ps); total += len(ps)
-    chk.witnesses += completed + ninst
+    # ---- (c) the aws-role-cert mode of the client (key pair -> role certificate manager, key written to the TLS key file)
+    naws = 0; AWSROOT = CM + '.generateAwsRoleCert'
+    if AWSROOT in ir.funcs:
+        ex3 = client_env(ir, budget_s=300, max_paths=60000)
+        ex3.stub(CM + '.backgroundConnectToAnyKeymasterServer', lambda ex_, st, a, ins: fork_results(ex_, st, ins, [(None, lambda s: mk_error(s, SV('conn'), 'conn')), (None, nilerr())]))
+        st3 = State()
+        cfg3 = ex3.materialise(st3, Lazy(CFG, 'config'))
+        ps3 = ex3.run(AWSROOT, [z3.String('homeDir'), cfg3, Ptr(st3.alloc(Opaque('httpclient'))), IfaceV('dyn:logger', Opaque('logger'))], st3)
+        for p in ps3:
+            if p.status in ('unsupported', 'unwind'): chk.absorb(ex3, ps3); chk.obligation('wire', '-', 'inconclusive', str(p.result)); return
+            res = p.result[0] if isinstance(p.result, (list, tuple)) and p.result else p.result
+            if p.status == 'returned' and isinstance(res, IfaceV) and res.tid is None: naws += 1
+        if judge_paths(chk, ex3, ps3, 'generateAwsRoleCert', counters) == 'violated': verdict = 'violated'
+        chk.absorb(ex3, ps3); total += len(ps3)
+        if naws == 0: chk.obligation('wire', '-', 'inconclusive', 'vacuous: generateAwsRoleCert never completes'); return
+    chk.witnesses += completed + ninst + naws
     chk.obligation('wire-non-interference / private-at-rest: nothing handed to the HTTP layer depends on a private half; private halves go only to the agent or to files with mode & 0077 = 0',
-                   'setupCerts from the client SSA (every key preference x certificate type x every I/O failure; authentication summarised: receives no key material) + the installation step on its own (agent present / absent / failing at every call)', verdict, paths=total,
-                   witness=f'{completed} completed runs, {ninst} completed installations, {counters["wire"]} transmitted terms, {counters["file"]} private file writes, {counters["agent"]} agent insertions', t=time.time() - t)
+                   'setupCerts from the client SSA (every key preference x certificate type x every I/O failure; authentication summarised: receives no key material) + the installation step on its own (agent present / absent / failing at every call) + the aws-role-cert mode', verdict, paths=total,
+                   witness=f'{completed} completed runs, {ninst} completed installations, {naws} completed aws-role-cert runs, {counters["wire"]} transmitted terms, {counters["file"]} private file writes, {counters["agent"]} agent insertions', t=time.time() - t)
     chk.sample({'obligation': 'wire', 'key_classes': sorted(prefs), 'transmitted_terms': counters['wire'], 'private_file_writes': counters['file']})
 
 
